@@ -34,10 +34,22 @@ MoreChains == [i \in 1..Len(PKinds) |-> << Rep(PKinds[i]), Rep(PKinds[i]) >>]
                     << [k |-> "CERT", enc |-> 4, data |-> D(17000, 1)], [k |-> "CERT", enc |-> 4, data |-> D(15700, 2)], Rep("N") >>,
                     << [k |-> "V", data |-> D(16380, 3)], [k |-> "V", data |-> D(16384, 4)] >>,
                     << [k |-> "KE", grp |-> 14, data |-> D(32760, 5)] >> >>
+\* messages as the exchanges really carry them, exchange type x request / response x the payload kinds that belong to that exchange in an order
+\* of the sender's choice (the ID payload not first, a COOKIE not first, a Delete in INFORMATIONAL): protection does not look at what a message
+\* is about
+XtChains == << << Rep("N"), Rep("IDi"), Rep("CERTREQ"), Rep("AUTH"), Rep("SA"), Rep("TSi"), Rep("TSr") >>, << Rep("N"), Rep("IDr"), Rep("AUTH"), Rep("SA"), Rep("TSi"), Rep("TSr") >>,
+              << Rep("AUTH"), Rep("IDi") >>, << Rep("CERT"), Rep("IDr"), Rep("AUTH") >>, << Rep("SA"), Rep("KE"), Rep("NONCE"), Nt(16390, 16) >>,
+              << Rep("EAP"), Rep("IDr") >>, << Rep("V"), Rep("D"), Rep("N") >> >>
+XtHdr(j) == [ispi |-> D(8, 20 + j), rspi |-> D(8, 30 + j), maj |-> 2, min |-> 0, xt |-> 34 + (j % 4), flags |-> IF (j \div 4) % 2 = 0 THEN 8 ELSE 32,
+             mid |-> << 0, 0, 0, (j \div 8) + 1 >>]
+NXt == 8 * Len(XtChains)        \* 4 exchange types x request / response x the chains
+XtMsg(q) == XtHdr(q - 1) @@ [payloads |-> XtChains[((q - 1) \div 8) + 1]]
 AllChains == ShapeChains \o MoreChains
-NShapes == Len(AllChains)
-MidBig == { i \in 1..NShapes : i > NShapes - 3 }
-M(i) == Msg(IF i <= NOld THEN ((i - 1) % 5) + 1 ELSE ((i - 1) % 10) + 1, AllChains[i])
+NPlain == Len(AllChains)
+NShapes == NPlain + NXt
+MidBig == { i \in 1..NPlain : i > NPlain - 3 }
+M(i) == IF i > NPlain THEN XtMsg(i - NPlain)
+        ELSE Msg(IF i <= NOld THEN ((i - 1) % 5) + 1 ELSE ((i - 1) % 10) + 1, AllChains[i])
 
 \* variants: 1..8 = round trip with rand class x header mode; 9 = unkeyed fallback; 10.. = reference-built (pad index)
 RandOf(v) == << "system", "zero", "ff", "ramp" >>[((v - 1) % 4) + 1]
